@@ -54,8 +54,11 @@ def crafted(case):
         if kind != "link":
             return None
         exts = [(2, b"lnk|ta\xff"), (1, put(b"rget", pos, b)), (0x50, perm_l)] if case.get("viapath") else [(1, put(b"lnk|target", 4 + pos * 3, b) if pos else b"lnk|" + bytes([b]) + b"target"), (0x50, perm_l)]
-    elif f in ("user", "group"):
-        exts = [(1, b"name.txt"), (0x53 if f == "user" else 0x52, put(b"owner", pos, b)), (0x50, perm_f), (0x51, struct.pack("<HH", 100, 1000))]
+    elif f in ("user", "group", "user+group"):
+        if f == "user+group":
+            exts = [(1, b"name.txt"), (0x53, put(b"owner", pos, b)), (0x52, put(b"grp", pos, b)), (0x50, perm_f), (0x51, struct.pack("<HH", 100, 1000))]
+        else:
+            exts = [(1, b"name.txt"), (0x53 if f == "user" else 0x52, put(b"owner", pos, b)), (0x50, perm_f), (0x51, struct.pack("<HH", 100, 1000))]
         method, size, data, crc = b"-lh0-", len(DATA), DATA, CRC
     elif f == "methodN":
         m = bytearray(b"-lh0-")
